@@ -12,6 +12,7 @@ from hypothesis import strategies as st
 from scipy.spatial.transform import Rotation as R
 
 from vf import build, gen, geom
+from vf import core
 from vf.core import Violation, exc_sig
 
 ID = "C07"
@@ -51,7 +52,7 @@ def budget(tier):
 
 @st.composite
 def case_strategy(draw):
-    cls = draw(st.sampled_from(sorted(FUNC)))
+    cls = draw(st.sampled_from(sorted(FUNC) + ["CustomSource"]))
     n = draw(st.integers(1, 4))
     base = draw(gen.source_spec(classes=[cls], max_path=1, L=1.0, pos_extent=1.0))
     if cls == "Polyline":
@@ -65,7 +66,7 @@ def case_strategy(draw):
             # functional interface takes one array of meshes: equal face counts per instance
             v = draw(gen.variant_of(base, max_path=1))
         insts.append(v)
-    names = FUNC[cls] + ["position", "orientation"]
+    names = FUNC.get(cls, []) + ["position", "orientation"]
     shared = [nm for nm in names if draw(st.integers(0, 2)) == 0] if n > 1 else []
     for nm in shared:
         for v in insts[1:]:
@@ -85,7 +86,7 @@ def case_strategy(draw):
                 v["vertices"][1] = [float(x) for x in (a + np.array([0.31, -0.17, 0.23]))]
     obs = []
     for v in insts:
-        o = draw(gen.region_observers(v, n_min=1, n_max=1))[0]
+        o = draw(gen.region_observers(v, n_min=1, n_max=1, regions="well_conditioned"))[0]
         obs.append({"region": o["region"], "global": [float(x) for x in build.to_global(v, o["local"])]})
     share_obs = n > 1 and draw(st.integers(0, 3)) == 0
     if share_obs:
@@ -212,9 +213,9 @@ def run_case(case, ctx):
         for i in range(n):
             m_ = max(float(np.max(np.abs(obs[i]))), 1e-300)
             for ax in range(3):
-                for sg in (1, -1):
+                for sg in core.NOISE_STEPS:
                     d = np.zeros(3)
-                    d[ax] = sg * 8 * np.finfo(float).eps * m_
+                    d[ax] = sg * m_
                     r = build.call(fn, objs[i], obs[i] + d, squeeze=False)
                     if r.ok:
                         nz[i] = np.maximum(nz[i], np.abs(np.asarray(r.value).reshape(3) - ref[i]))
@@ -295,6 +296,91 @@ def run_case(case, ctx):
         nt_coll = True
         compare("coll.getX(obs)", np.array(vals))
         compare("coll.getX()", np.array(vals2))
+
+    # (d2) multi-source forms: list of all instances x all observers, sensor method with several
+    # sources, one collection holding all instances
+    if n > 1:
+        ref_full = np.zeros((n, n, 3))
+        okf = True
+        for l in range(n):
+            for k in range(n):
+                r = build.call(fn, objs[l], obs[k], squeeze=False)
+                if not r.ok:
+                    okf = False
+                    break
+                ref_full[l, k] = np.asarray(r.value).reshape(3)
+        if okf:
+            # observer k was constructed for instance k; relative to another instance l it may fall
+            # anywhere, also within rounding distance of l's surface or axis: such pairs are not compared
+            for l in range(n):
+                body_l = geom.body_from_spec(insts[l])
+                for k in range(n):
+                    if l != k:
+                        pl = build.to_local(insts[l], obs[k])
+                        if float(body_l.dist(pl[None])[0]) < 1e-3 * body_l.L or \
+                                (hasattr(body_l, "r2") and np.hypot(pl[0], pl[1]) < 1e-3 * body_l.r2):
+                            ref_full[l, k] = np.nan
+            with np.errstate(invalid="ignore"):
+                scf = np.fmax(np.max(np.abs(ref_full), axis=-1, keepdims=True), np.max(fs) * 1e-6) * np.ones(3)
+            sens_all = [magpy.Sensor(position=o) for o in obs]
+            nzf_cache = []
+
+            def cmp_full(form, val, want):
+                val = np.asarray(val, dtype=float)
+                if val.shape != want.shape:
+                    out.append(Violation({"sub": "shape", "form": form, "cls": cls}, f"{form}: shape {val.shape}, expected {want.shape}"))
+                    return
+                scale = scf if want.shape == scf.shape else np.nansum(scf, axis=0)
+                with np.errstate(invalid="ignore"):
+                    bad = ~(np.abs(val - want) <= 1e-5 * scale) & ~np.isnan(want)
+                if np.any(bad):
+                    if not nzf_cache:
+                        nzf = np.zeros((n, n, 3))
+                        for l_ in range(n):
+                            for k_ in range(n):
+                                m_ = max(float(np.max(np.abs(obs[k_]))), 1e-300)
+                                for ax in range(3):
+                                    for sg in core.NOISE_STEPS:
+                                        d = np.zeros(3)
+                                        d[ax] = sg * m_
+                                        rr = build.call(fn, objs[l_], obs[k_] + d, squeeze=False)
+                                        if rr.ok:
+                                            with np.errstate(invalid="ignore"):
+                                                nzf[l_, k_] = np.fmax(nzf[l_, k_], np.abs(np.asarray(rr.value).reshape(3) - ref_full[l_, k_]))
+                        nzf_cache.append(nzf)
+                    nzf = nzf_cache[0]
+                    nz_ = nzf if want.shape == nzf.shape else (nzf[:, 0] if want.shape == nzf[:, 0].shape else np.nansum(nzf, axis=0))
+                    with np.errstate(invalid="ignore"):
+                        bad = ~(np.abs(val - want) <= 1e-5 * scale + 20 * nz_) & ~np.isnan(want)
+                    if not np.any(bad):
+                        ctx.label("illconditioned_tolerated")
+                if np.any(bad):
+                    err = float(np.nanmax(np.abs(val - want) / scale))
+                    out.append(Violation({"sub": "value", "form": form, "cls": cls, "magnitude": "O(1)" if err > 1e-3 else "small"},
+                                         f"{form}: max rel deviation from single calls {err:.3g} (field {field}, n={n})"))
+
+            r = build.call(fn, objs, sens_all, squeeze=False)
+            if r.ok:
+                cmp_full("getX([srcs],[sensors])", np.asarray(r.value)[:, 0, :, 0, :], ref_full)
+            else:
+                out.append(Violation({"sub": "form_raised", "form": "getX([srcs],[sensors])", "cls": cls, **exc_sig(r.exc)}, repr(r.exc)[:200]))
+            r = build.call(getattr(sens_all[0], "get" + field), *objs, squeeze=False)
+            if r.ok:
+                cmp_full("sens.getX(*srcs)", np.asarray(r.value)[:, 0, 0, 0, :], ref_full[:, 0])
+            else:
+                out.append(Violation({"sub": "form_raised", "form": "sens.getX(*srcs)", "cls": cls, **exc_sig(r.exc)}, repr(r.exc)[:200]))
+            call_all = magpy.Collection(*[build.build_source(s) for s in insts])
+            r = build.call(getattr(call_all, "get" + field), *sens_all, squeeze=False)
+            if r.ok:
+                cmp_full("Collection(all).getX(sensors)", np.asarray(r.value)[0, 0, :, 0, :], np.sum(ref_full, axis=0))
+            else:
+                out.append(Violation({"sub": "form_raised", "form": "Collection(all).getX(sensors)", "cls": cls, **exc_sig(r.exc)}, repr(r.exc)[:200]))
+            ctx.label("multi_source_forms_compared")
+
+    if cls not in FUNC:
+        ctx.mark_nontrivial(case)
+        ctx.sample(case, nontrivial=True)
+        return _uniq(out)
 
     # (e) functional interface
     kw = {}
@@ -394,7 +480,11 @@ def run_case(case, ctx):
         ctx.sample(case, nontrivial=True)
     else:
         ctx.sample(case)
-    # one violation per signature is enough
+    return _uniq(out)
+
+
+def _uniq(out):
+    """one violation per signature is enough"""
     seen, uniq = set(), []
     for v in out:
         k = v.sig_key()
